@@ -28,7 +28,10 @@ func (node *HusbandNode) Individual() *IndividualNode {
 		return nil
 	}
 
-	return n.(*IndividualNode)
+	// The pointer may belong to a record that is not an individual.
+	individual, _ := n.(*IndividualNode)
+
+	return individual
 }
 
 func (node *HusbandNode) Similarity(other *HusbandNode, options SimilarityOptions) float64 {
